@@ -458,6 +458,8 @@ for _id, _prop, _rule, _desc, _eb in [
     ("c01-presence-test-inverted-read", "C01", "R01.18", "read_generic_qr with `if (!qr.response_processing_data)`", False),
     ("c01-presence-test-inverted-hash", "C01", "R01.18", "hash_value(QueryResponseSignature) with `if (!qrs.qr_transport_flags)`", False),
     ("c03-optional-not-engaged", "C03", "R03.12", "QueryResponse::read dereferencing response_processing_data without storing a value into it first", True),
+    ("c19-reindex-counts-down", "C19", "R19.5", "BlockTable::rebuild_indexes entering the items under 0, -1, -2 ..", False),
+    ("c01-read-cursor-starts-at-one", "C01", "R01.19", "CdnsBlockRead::read leaving m_mm_read at 1: the first malformed message of every block is skipped", False),
     ("c19-memo-not-reset", "C19", "R19.2", "ip-address lookup memo (C12g/3) that CdnsBlock::operator= does not reset", False),
     ("c16-guard-armed-early", "C16", "R16.6", "BlockClearGuard (C12g/2) armed before the write it guards", False),
     ("c16-guard-armed-early-c12", "C12", "R12.4", "BlockClearGuard (C12g/2) armed before the write it guards", False),
